@@ -51,6 +51,13 @@ def kinds(n, acc):
     return acc
 
 
+CODES = {"x:panic": "violation: panic", "x:tv": "violation: to_value failed", "x:back": "violation: from_value failed",
+         "x:rt": "violation: round trip returned another value",
+         "tool": "tool: reading of without-loss disagrees with serde_json",
+         "d:tv": "to_value image differs from ToValue", "d:ok": "from_value success differs from Decode",
+         "d:term": "from_value result differs from Decode"}
+
+
 def body(c):
     if c.quick:
         runs = [("M+G all family members, depth 2", 2, FAMILY)]
@@ -101,7 +108,7 @@ def body(c):
     v = vlib.run_tlc("lex/SerdeTrace.tla", "lex/SerdeTrace.cfg", env={"TRACE": c.path("v.ndjson")}, workers=8,
                      timeout=6000, keep_lines=100, xmx="8g")
     c.add_tlc("V SerdeTrace", v)
-    verdicts = {t[1]: (t[2], t[3], t[4]) for t in v.tagged("VERDICT")}
+    verdicts = {t[1]: (CODES.get(t[2], t[2]), CODES.get(t[3], t[3]), t[4]) for t in v.tagged("VERDICT")}
     if len(verdicts) != len(obs):
         raise vlib.ToolError("V produced %d verdicts for %d cases" % (len(verdicts), len(obs)))
     seen_kinds, per_type, unrep = set(), {}, 0
